@@ -506,13 +506,14 @@ def _s_workers(ctx, S):
                 continue
             tv = gets[0].targets[0].id
             stops = [(i_, c_) for i_ in ast.walk(n) if isinstance(i_, ast.If) for c_ in [i_.test] if isinstance(c_, ast.Compare) and len(c_.ops) == 1 and
-                     isinstance(c_.ops[0], (ast.Eq, ast.Is)) and src(c_.left) == tv and any(isinstance(b, (ast.Break, ast.Return)) for b in i_.body)]
+                     isinstance(c_.ops[0], (ast.Eq, ast.Is)) and tv in (src(c_.left), src(c_.comparators[0])) and any(isinstance(b, (ast.Break, ast.Return)) for b in i_.body)]
             if len(stops) != 1:
                 continue
             stop_if, cmp_ = stops[0]
+            other_side = cmp_.comparators[0] if src(cmp_.left) == tv else cmp_.left
             calls = [c for c in ast.walk(n) if isinstance(c, ast.Call) and isinstance(c.func, ast.Name) and c.func.id == tv and not any(c is x for b in stop_if.body for x in ast.walk(b))]
             forever = src(n.test) in ("True", "1")
-            shape = (src(gets[0].value.func.value), src(cmp_.comparators[0]), len(calls), forever)
+            shape = (src(gets[0].value.func.value), src(other_side), len(calls), forever)
     ctx.need(shape, "the thread loop of ThreadWorker.__init__.work (iter(queue.get, sentinel) or while/get/compare/break)")
     qexpr, sentinel, ncalls, forever = shape
     ctx.check(sentinel_put == [sentinel], "worker/sentinel-agreement", "twisted._threads._threadworker.ThreadWorker | stop sentinel",
@@ -606,12 +607,29 @@ def _s_lockworker(ctx, S):
                   "the work list is not drained completely before the lock is released (re-entrantly queued work is lost)")
         for cn in g.ids_of(c):
             ctx.check(any(g.dominates(a, cn) for a in acq), "lockworker/work-under-lock", ctx.construct(q, c), "work runs without the lock held")
-    ctx.check(bool(shared) and g.must_precede(shared, acq, exc=False) is None and
-              all(any((a := asserted_is(t, lab)) is not None and a[2] and src(a[0]) in R and src(a[1]) == "None" for t, lab in edge_asserts(g, s)) for s in shared),
+    def through_flag(t):
+        """a guard that is a boolean local recorded once (`outermost = working is None`) stands for the recorded test"""
+        if isinstance(t, ast.Name):
+            ds = [d for d in defs.get(t.id, [])]
+            if len(ds) == 1 and ds[0] is not None and isinstance(ds[0], (ast.Compare, ast.UnaryOp, ast.BoolOp)):
+                return ds[0]
+        return t
+    # paths are judged consistently with a boolean flag that is recorded once and tested more than once (`outermost`): a path may not take the flag as true
+    # at one test and as false at another
+    flags = {}
+    for s_ in shared:
+        for t, lab in edge_asserts(g, s_):
+            if isinstance(t, ast.Name) and through_flag(t) is not t:
+                flags[t.id] = lab
+    consistent = lambda a, b, l: l != "exc" and not (g.node(a).kind == "test" and isinstance(g.node(a).ast, ast.Name) and g.node(a).ast.id in flags
+                                                      and l in ("T", "F") and l != flags[g.node(a).ast.id])
+    published_first = g.path([g.entry], acq, avoid=shared, edge_ok=consistent) is None
+    ctx.check(bool(shared) and published_first and
+              all(any((a := asserted_is(through_flag(t), lab)) is not None and a[2] and src(a[0]) in R and src(a[1]) == "None" for t, lab in edge_asserts(g, s)) for s in shared),
               "lockworker/reentrancy-marker", q, "local.working is not published (under `<re-entrant queue> is None`) before the lock is taken: re-entrant do() would dead-lock")
     # the re-entrant branch only queues: it never touches the lock
     for nid in [n for n, c in node_calls(g, lambda c: call_attr(c) == "append" and dotted(c.func.value) in R and c.args and src(c.args[0]) == work_p)]:
-        if any((a := asserted_is(t, lab)) is not None and not a[2] and src(a[0]) in R for t, lab in edge_asserts(g, nid)):
+        if any((a := asserted_is(through_flag(t), lab)) is not None and not a[2] and src(a[0]) in R for t, lab in edge_asserts(g, nid)):
             ctx.check(g.path([nid], acq, edge_ok=no_exc) is None, "lockworker/reentrant-call-only-queues", ctx.construct(q, "re-entrant append"),
                       "a re-entrant do() goes on to acquire the (non re-entrant) lock: dead-lock")
 
@@ -853,4 +871,10 @@ SILENT = [
     Silent("thread-loop-as-while", TW, "            for task in smartiter(queue.get, StopThread):\n                task()\n", "            while True:\n                job = queue.get()\n                if job is StopThread:\n                    return\n                job()\n"),
     Silent("current-limit-as-conditional-expression", TP, "            if not self.started:\n                return 0\n            return self.max\n", "            return self.max if self.started else 0\n"),
     Silent("coordinator-in-a-temporary", POOL, "    team = Team(\n        coordinator=LockWorker(Lock(), LocalStorage()),\n", "    serialiser = LockWorker(Lock(), LocalStorage())\n    team = Team(\n        coordinator=serialiser,\n"),
+    Silent("finishing-step-as-bound-private-method", TEAM, "        @self._coordinator.do\n        def startFinishing() -> None:\n            self._shouldQuitCoordinator = True\n            self._quitIdlers()",
+           "        self._coordinator.do(self._beginFinishing)\n\n    def _beginFinishing(self) -> None:\n        self._shouldQuitCoordinator = True\n        self._quitIdlers()"),
+    Silent("lockworker-outermost-flag", TW,
+           "        working = getattr(local, \"working\", None)\n        if working is None:\n            assert lock is not None, \"LockWorker used after quit()\"\n            working = local.working = []\n            working.append(work)\n            lock.acquire()\n            try:\n                while working:\n                    working.pop(0)()\n            finally:\n                lock.release()\n                local.working = None\n        else:\n            working.append(work)\n",
+           "        working = getattr(local, \"working\", None)\n        first = working is None\n        if first:\n            assert lock is not None, \"LockWorker used after quit()\"\n            working = local.working = []\n        working.append(work)\n        if not first:\n            return\n        lock.acquire()\n        try:\n            while working:\n                working.pop(0)()\n        finally:\n            lock.release()\n            local.working = None\n"),
+    Silent("thread-loop-reflected-sentinel-test", TW, "            for task in smartiter(queue.get, StopThread):\n                task()\n", "            while True:\n                job = queue.get()\n                if StopThread == job:\n                    break\n                job()\n"),
 ]
